@@ -106,7 +106,7 @@ static void part_a(report& r)
 {
     using R = runner<T, K>;
     std::string const tn = vf::type_name<T>();
-    for (sz len = 0; len <= 4; ++len)
+    for (sz len = 0; len <= (r.a().thorough() ? 5u : 4u); ++len)
     for (unsigned pattern = 0; pattern != (1u << len); ++pattern)
     for (int start = 0; start != 2; ++start)
     for (sz stop_at = 0; stop_at <= len; ++stop_at)
